@@ -141,7 +141,7 @@ class Work:
 
 
 # ---------------------------------------------------------------------------
-def run_vdrive(work, name, cases, shards=NCPU, timeout_ms=10000):
+def run_vdrive(work, name, cases, shards=NCPU, timeout_ms=30000):
     """Runs the cases through vdrive in parallel shards.  Returns a list of
     shard prefixes; each has .dumps/.errs/.traces ndjson next to it."""
     build_harness()
